@@ -163,7 +163,8 @@ Finish ==
            chunks == IF Tr[idx].pre = "none" THEN ProjBad(h, got.err = "none") ELSE {}
        IN  /\ Report(idx, <<result, {}, IF strict THEN single ELSE << >>, real>>,
                           <<got, chunks, IF strict THEN got.valid ELSE << >>, IF strict THEN got.valid ELSE << >> >>)
-           /\ FirstDiff(evs, h, 1) = 0 \/ PrintT(<<"NOTE", idx, "hook sequence differs from Batch.tla at", FirstDiff(evs, h, 1)>>)
+           /\ IF FirstDiff(evs, h, 1) = 0 THEN TRUE
+              ELSE PrintT(<<"NOTE", idx, "hook sequence differs from Batch.tla at", FirstDiff(evs, h, 1)>>)
     /\ pc' = "checked"
     /\ UNCHANGED <<entries, zip, entropyOk, num, offset, valid, ret, batchOk, chunk, evs, result, idx>>
 
